@@ -49,11 +49,17 @@ def _records(env, p, nch):
     p2 = [env.int(f"p2_{q}", -2, phi) for q in range(R)]
     x1 = [env.int(f"x1_{q}", 0, 3) for q in range(R)]
     x2 = [env.int(f"x2_{q}", 0, 3) for q in range(R)]
+    rev = p.get("cat_order") == "reversed"
+    if rev:
+        # chromosome columns handed over as categoricals whose categories are the bin table's names in another order (what
+        # astype("category") gives for chr1, chr10, chr2): names decide, never the codes of the caller's own categorical
+        for c in c1 + c2:
+            env.assume(c >= 0)
     if env.symbolic:
         from engine import sympd
-        cats = names + [UNLISTED]
+        cats = names + [UNLISTED] if not rev else names[::-1]
         # the input spelling of the chromosome column: names, with the unlisted one coded last
-        code = lambda c: ite(c < 0, nch, c)  # noqa
+        code = (lambda c: ite(c < 0, nch, c)) if not rev else (lambda c: nch - 1 - c)  # noqa
         chunk = sympd.DataFrame({
             "chrom1": SCat(SArr([code(c) for c in c1], "int64"), cats), "pos1": SArr(p1, pdt),
             "chrom2": SCat(SArr([code(c) for c in c2], "int64"), cats), "pos2": SArr(p2, pdt),
@@ -63,6 +69,9 @@ def _records(env, p, nch):
         chunk = pd.DataFrame({"chrom1": [nm(c) for c in c1], "pos1": np.array(p1, dtype=pdt),
                               "chrom2": [nm(c) for c in c2], "pos2": np.array(p2, dtype=pdt),
                               "x1": np.array(x1, dtype=np.int64), "x2": np.array(x2, dtype=np.int64)})
+        if rev:
+            for col in ("chrom1", "chrom2"):
+                chunk[col] = pd.Categorical(chunk[col], categories=names[::-1])
     return chunk, c1, c2, p1, p2, x1, x2
 
 
@@ -178,6 +187,9 @@ def _rec_cases(tier):
                 out.append(dict(t, tril=action, sort=sort, R=R))
     # positions in a narrow integer type on a genome longer than 2^31 bp (variable-width bins: absolute positions are computed)
     out.append(dict(layout=[1, 1, 1], shape="any", wmax=2**31 - 1, tril="reflect", sort=False, R=1, pos_dtype="int32", big_genome=True))
+    # chromosome columns that are already categoricals, categories in another order than the bin table's chromosomes
+    out.append(dict(layout=[1, 2], shape="any", wmax=2, tril="reflect", sort=False, R=1, cat_order="reversed"))
+    out.append(dict(layout=[2, 1], shape="fixed", b=2, wmax=2, tril="drop", sort=True, R=1, cat_order="reversed"))
     return out
 
 
